@@ -55,6 +55,16 @@ func goRem(a, b *Term) *Term {
 	return Ite(Ge(a, IntLit(0)), r, Sub(IntLit(0), r))
 }
 
+func (f *frame) nonneg(x *Term) bool {
+	iv := f.ivalOf(x)
+	return iv.lo != nil && iv.lo.Sign() >= 0
+}
+
+func (f *frame) pos(x *Term) bool {
+	iv := f.ivalOf(x)
+	return iv.lo != nil && iv.lo.Sign() > 0
+}
+
 func isConstPow2Minus1(x *Term) (uint, bool) {
 	if x.Int == nil || x.Int.Sign() < 0 {
 		return 0, false
@@ -195,6 +205,9 @@ func (f *frame) binop(ins *ssa.BinOp) (*Term, error) {
 		if isUnsigned(t) {
 			return f.wrapT(r, t), nil
 		}
+		if !f.pure && f.c != nil && f.c.wrapSigned {
+			return f.wrapT(r, t), nil
+		}
 		if lo, hi, ok := intRange(t); ok && !f.pure && f.c != nil && !f.c.noOverflow && !f.ivalOf(r).within(lo, hi) {
 			// lengths are bounded by the address space (2^56): an axiom added to overflow obligations only
 			f.oblige("overflow", "", And(Le(BigLit(lo), r), Le(r, BigLit(hi))), ins.Pos())
@@ -214,13 +227,13 @@ func (f *frame) binop(ins *ssa.BinOp) (*Term, error) {
 		return arith(Mul(x, y))
 	case token.QUO:
 		f.oblige("div", "", Not(Eq(y, IntLit(0))), ins.Pos())
-		if isUnsigned(t) {
+		if isUnsigned(t) || (f.nonneg(x) && f.pos(y)) {
 			return Div(x, y), nil
 		}
 		return goDiv(x, y), nil
 	case token.REM:
 		f.oblige("div", "", Not(Eq(y, IntLit(0))), ins.Pos())
-		if isUnsigned(t) {
+		if isUnsigned(t) || (f.nonneg(x) && f.pos(y)) {
 			return Mod(x, y), nil
 		}
 		return goRem(x, y), nil
@@ -672,8 +685,10 @@ func (f *frame) unop(x *ssa.UnOp) error {
 		f.setVal(x, t)
 		if f.origin == nil {
 			f.origin = map[ssa.Value]*Ptr{}
+			f.originRaw = map[ssa.Value]*Term{}
 		}
 		f.origin[x] = p
+		f.originRaw[x] = t
 		if !f.bound {
 			if rf := f.e.rangeFact(f.vals[x].T, x.Type()); !rf.IsTrue() && f.c != nil {
 				f.assume(rf)
@@ -796,7 +811,7 @@ func (f *frame) indexAddr(x *ssa.IndexAddr) error {
 	if org := f.origin[x.X]; org != nil {
 		// element of the slice stored at org; valid while that location still holds this slice value
 		cur, err := f.load(org, x.X.Type())
-		if err == nil && cur.String() == bv.T.String() {
+		if err == nil && (cur.String() == bv.T.String() || (f.originRaw[x.X] != nil && cur.String() == f.originRaw[x.X].String())) {
 			q := *org
 			q.Path = append(append([]sel{}, org.Path...), sel{Field: -1, Index: i})
 			f.vals[x] = &Val{P: &q, Typ: x.Type()}
